@@ -15,7 +15,12 @@ PROP = "C14"
 LEVEL_NOTE = ("theorems range over all directory trees and the documented pattern forms; os.walk / fnmatch are "
               "re-stated in Lean (Glob) and compared with the real ones on every generated tree")
 
-PROBE_CFG = 'file-placement:\n  global_deny:\n    - pattern: ".*"\n      reason: "probe"\n'
+PROBE_CFG = ('file-placement:\n  global_deny:\n    - pattern: ".*"\n      reason: "probe"\n'
+             'dry:\n  enabled: true\n  min_duplicate_lines: 3\n  detect_duplicate_constants: false\n')
+# every file holds the same block: each linted source file is a duplicate of every other one, so the cross-file pass shows which
+# files contributed evidence (an excluded or ignored file must never be named, neither as the place of a finding nor as "also found in")
+FILE_TEXT = ("def f(items, channel, storage):\n    total = compute_total(items)\n    average = total / max(len(items), 1)\n    report = build_report(total, average)\n"
+             "    publish(report, channel)\n    archive(report, storage)\n    return 4242\n")
 
 
 def tables():
@@ -90,7 +95,7 @@ def all_files(tree, pre=()):
 def write_tree(root: Path, tree):
     for n in tree:
         if "f" in n:
-            (root / n["f"]).write_text("def f():\n    return 4242\n")
+            (root / n["f"]).write_text(FILE_TEXT)
         else:
             (root / n["d"]).mkdir()
             write_tree(root / n["d"], n["k"])
@@ -152,6 +157,25 @@ def impl_case(args) -> dict:
                 out["errors"].append(f"magic-numbers --parallel: exit {code2}: {stdout2[:300]}")
             else:
                 out["linted_py_parallel"] = sorted({os.path.relpath(os.path.join(cwd, v["file_path"]), target_abs) for v in vs2})
+            # third probe: the cross-file pass (duplicate code) sequentially and in parallel - places and "also found in" references
+            for mode, extra in (("seq", []), ("par", ["--parallel"])):
+                a4 = ["--project-root", str(proj), "dry", "--format", "json"] + extra + ([] if case["recursive"] else ["--no-recursive"]) + [target]
+                code4, stdout4 = core.run_cli(a4, cwd=cwd)
+                vs4 = core.violations_json(stdout4)
+                if vs4 is None:
+                    out["errors"].append(f"dry {mode}: exit {code4}: {stdout4[:300]}")
+                    continue
+                import re as _re
+                # (duplicate-code findings spell their own file as the run was given it, i.e. relative to the working directory)
+                places = {os.path.relpath(os.path.join(cwd, v["file_path"]), target_abs) for v in vs4}
+                refs = set()
+                for v in vs4:
+                    for ref in _re.findall(r"([^\s,;()]+?):\d+-\d+", v["message"]):
+                        # a path in a message may be spelled from the project root or from the working directory: keep every reading
+                        # that names an existing file (a nested directory can make both exist)
+                        cands = sorted({os.path.relpath(c_, target_abs) for c_ in (os.path.join(proj, ref), os.path.join(cwd, ref)) if os.path.lexists(c_)})
+                        refs.add("|".join(cands) if cands else ref)
+                out[f"dry_{mode}"] = {"places": sorted(places), "refs": sorted(refs)}
         # several targets in one run (relative spellings from the project root)
         if case.get("targets"):
             spelled = [os.path.join(*(t.get("dir") or t.get("file"))) if (t.get("dir") or t.get("file")) else "." for t in case["targets"]]
@@ -204,6 +228,9 @@ def gen_case(rng, excl_dirs, excl_exts):
     explicit = rng.sample(files, min(len(files), rng.choice([0, 2, 3])))
     case = {"tree": tree, "rel": rel, "carrier": carrier, "recursive": rng.random() < 0.7, "parallel": rng.random() < 0.3,
             "spelling": rng.choice(["dot", "rel", "abs", "dotdot"]), "forms": gen_forms(rng, sub), "explicit": explicit}
+    if case["parallel"] and not rel:
+        # enough files for the process pool to be used (2 x workers)
+        tree.append({"d": "bulk", "k": [{"f": f"b{i:02d}.py"} for i in range(16)]})
     top_dirs = [n["d"] for n in tree if "d" in n]
     if case["spelling"] == "dotdot":
         if top_dirs:
@@ -301,6 +328,18 @@ def evaluate(cases, res: core.Result, procs=16):
                 if im.get("multi_dups") and any("dir" in t for t in c["targets"]):
                     problems.append(f"{im['multi_dups']} file(s) reported more than once in a run with several targets")
                     fails = True
+            for mode in ("seq", "par"):
+                dd = im.get(f"dry_{mode}")
+                if dd:
+                    res.bump("cross-file probe", f"dry {mode}")
+                    outside = sorted((set(dd["places"]) - set(model)) | {r for r in dd["refs"] if not (set(r.split("|")) & set(model))})
+                    if outside:
+                        problems.append(f"dry ({'--parallel' if mode == 'par' else 'sequential'}): files that are not linted appear as the place of a finding or as 'also found in': {outside[:4]}")
+                        if not l["deviations"]:
+                            fails = True
+            if im.get("dry_seq") and im.get("dry_par") and im["dry_seq"] != im["dry_par"]:
+                problems.append(f"dry: sequential and --parallel name different files: {sorted(set(im['dry_seq']['places']) ^ set(im['dry_par']['places']))[:4]}")
+                fails = True
             if im.get("dups"):
                 problems.append(f"{im['dups']} file(s) reported more than once")
                 fails = True
